@@ -72,15 +72,24 @@ MANIFEST_PART = {
                      "leaves 1..7 bytes of a frame buffered) with a refutation witness otherwise; correspondence "
                      "over all cut sets of short streams and single/double/random cuts of long ones."),
             "note": "Known findings: TCP 1..7-byte buffer -> _process(error=True); foreign-unit frame resets the read."},
-    "C07": {"text": ("Socket/ASCII half: gate theorems — from ANY receiver state, every message delivered by a receive "
-                     "call lies in buffer++chunk as a span whose integrity check holds (MBAP length consistent; ':' "
-                     "hex LRC CR LF with matching LRC); LRC detects every single hex-character change; every bit "
-                     "flip/substitution/deletion/insertion/truncation of real frames is replayed against the code."),
-            "note": "Open: TCP error path delivers a bogus message from a 1..7-byte buffer (same region as C06)."},
-    "C11": {"text": ("ASCII half: after the repair, from ANY state one read of valid frames ends in the synchronised "
-                     "state or raises (and the handler reset synchronises): C11_recover_ascii, C11_after_sync, "
-                     "C11_backlog_ascii; garbage-prefix streams followed by 70+ valid frames replayed against the code."),
-            "note": "Open: a valid-LRC frame whose PDU the decoder rejects stays buffered (framer-level deafness until reset)."},
+    "C07": {"text": ("Socket/ASCII half: gate theorems from ANY receiver state: whenever ASCII checkFrame accepts, the "
+                     "buffer holds ':' hex.. CR LF whose two LRC characters equal the specification LRC of the decoded "
+                     "bytes and the header carries exactly those values (C07_gate_ascii); whenever the socket "
+                     "checkFrame accepts, the MBAP length is >= 2 and the PDU is exactly the next len-1 buffered bytes "
+                     "(C07_gate_tcp); a change of any single byte / hex character breaks the LRC equation "
+                     "(C07_lrc_single_char). Every bit flip, substitution, deletion, insertion and truncation of real "
+                     "frames is replayed against the code and judged by a reference receiver written in Coq."),
+            "note": "Open: TCP error path delivers a bogus message from a 1..7-byte buffer (C07_tcp_errpath_refuted; same region as C06)."},
+    "C11": {"text": ("ASCII half: from the synchronised state every read of whole valid frames, one or several per read, "
+                     "is delivered and ends synchronised (C11_after_sync_ascii); arbitrary cutting never loses a frame "
+                     "(C11_backlog_ascii); the scan loop terminates from any state on any input "
+                     "(C11_no_fuel_out_ascii); a raising call followed by the handlers' reset is synchronised "
+                     "(C11_recover_ascii_handler). Garbage prefixes of eight kinds followed by 70+ valid frames are "
+                     "replayed against the code: every frame later than two maximum-size frames after the garbage must "
+                     "be delivered, backlog bounded."),
+            "note": ("Open: a valid-LRC frame whose PDU the decoder rejects stays buffered forever at the bare framer "
+                     "(C11_ascii_stuck_refuted); recovery from arbitrary garbage is shown by correspondence, not by a "
+                     "universal theorem.")},
 }
 
 KINDS = {"tcp": "KTcp", "ascii": "KAscii", "tls": "KTls"}
